@@ -3,3 +3,5 @@ pub mod rng;
 pub mod val;
 pub mod out;
 pub mod sql;
+pub mod qgen;
+pub mod semrun;
